@@ -567,7 +567,13 @@ pub fn gen_parse(rng: &mut Rng, sw: &Swarm, now: &Reading) -> OpKind {
                 D::Year => {
                     let k = year_kind as usize;
                     let pic = "YYYY"[..k].to_string();
-                    let txt = num_text(b.rng, year_n, k);
+                    let mut txt = num_text(b.rng, year_n, k);
+                    // an explicit sign now and then ('+' only where its meaning is clear)
+                    match b.rng.below(24) {
+                        0 | 1 if k != 2 => txt.insert(0, '+'),
+                        2 => txt.insert(0, '-'),
+                        _ => {}
+                    }
                     b.push(&pic, txt, Sem::Year { k: year_kind, n: year_n });
                 }
                 D::Month => match month_kind {
